@@ -716,7 +716,8 @@ class M(gen_builder.T):
             fail(m, f"return annotation {rs} of {name}")
         return params, RET[rs]
 
-    XF_CHAIN = [("GCodeCore", "_transform_move"), ("GCodeBuilder", "_transform_move"), ("GCodeCore", "move"), ("GCodeCore", "rapid")]
+    XF_CHAIN = [("GCodeCore", "_transform_move"), ("GCodeBuilder", "_transform_move"), ("GCodeCore", "move"), ("GCodeCore", "rapid"),
+                ("GCodeBuilder", "probe")]
 
     def motion_method_T(self, cls, name):
         """the same method once more, with `self.transform.apply_transform` an arbitrary function `T` (the transformer in effect);
